@@ -65,6 +65,9 @@ func initProperties() {
 			Decides: "the clause `a path that does not fit the value's shape or the descriptor yields an error result, never a panic` and error propagation of the read walkers: descriptor lookups are nil-checked before use (NILLOOKUP), no fallible call's error is dropped or swallowed (DROPERR, ERRSWALLOW), size-guarded cursor functions get positive sizes (PANICARG), container counts are bounded (ALLOCBOUND), every search loop consumes (LOOPPROGRESS) and the unknown-field branches skip (UNKNOWNSKIP) — over package thrift/generic and the thrift skip/readers it uses.",
 			NotDec:  "that offsets, spans and values returned are the right ones (chained skip arithmetic is value-level); typed/untyped agreement; effect of each read option.",
 			Uses: uses(
+				use("OPTSFORWARD", "the caller's options reach every part of the result", thriftGeneric),
+				use("ITERKIND", "a typed key reader checks the map's key type first", thriftGeneric),
+				use("SIGNEDBYTE", "an i8 map key / element is widened as a signed value", anyOf(thriftGeneric, thriftPkg)),
 				use("NEXTSTOREBACK", "Children/Load store the refilled children back on every success path", thriftGeneric),
 				use("DEPTHBUDGET", "the skip depth budget counts nesting levels, not elements", anyOf(thriftGeneric, thriftPkg)),
 				use("RAWWIDTH", "scalar casts of a generic node are bounded by the node's length", nil),
@@ -101,6 +104,10 @@ func initProperties() {
 			Decides: "option plumbing into the native FSM (FLAGSYNC: every conv.Option that affects j2t reaches its own flag bit, flags recomputed after every options write), the native status is tested and handled (NATIVERET), and for the portable converter (config P): every JSON-kind case of doRecurse ends in a return (CASEEXIT), the portable code reads the same options the flag table maps (OPTAGREE), no error dropped (DROPERR), thrift type switch exhaustive (KINDEXH).",
 			NotDec:  "everything inside the native FSM (opaque machine code): number/escape handling, resumption after ERR_OOM_*, buffer-capacity independence; value equality of the output.",
 			Uses: uses(
+				use("PARSEBASE", "text integers (map keys, quoted numbers) are decimal", nil),
+				use("GROWCAP", "the output buffer is re-allocated with room for what it holds", nil),
+				use("NATIVEROW", "each native stub row is built from its own routine's constants", nil),
+				use("POOLNEWSHARED", "pooled state machines share no scratch storage", nil),
 				use("TRUNCALLPATHS", "the field cache is emptied on every success exit of the fallback handler", inPkgs("conv/j2t")),
 				use("ROOTSTRUCTNIL", "a non-struct root descriptor is not dereferenced as a struct", inPkgs("conv/j2t")),
 				use("FLAGSYNC", "options reach flags", nil),
@@ -125,6 +132,9 @@ func initProperties() {
 			Decides: "balanced `{}`/`[]` on every success path of the t2j walkers (JSONPAIR — a necessary condition of `never malformed JSON with a nil error`), member keys come from one FieldDescriptor accessor everywhere (KEYSRC), thrift type switches are exhaustive (KINDEXH), unknown fields are an error exactly when disallowed and are otherwise skipped (NEGPOLARITY, UNKNOWNSKIP), no error dropped (DROPERR), loops consume (LOOPPROGRESS).",
 			NotDec:  "comma placement, numeric and string exactness (value-level).",
 			Uses: uses(
+				use("NOGOQUOTE", "keys and strings are quoted as JSON, not as Go literals", nil),
+				use("GROWCAP", "the output buffer is re-allocated with room for what it holds", nil),
+				use("DONILNIL", "no converter answers (nil, nil)", inPkgs("conv/t2j")),
 				use("BYTEOPT", "byte keys and byte values honour ByteAsUint8 alike", nil),
 				use("DEFAULTARM", "an IDL default matters for optional fields only", thriftPkg),
 				use("ROOTSTRUCTNIL", "a non-struct root descriptor is not dereferenced as a struct", inPkgs("conv/t2j")),
@@ -151,6 +161,7 @@ func initProperties() {
 			Decides: "every locator loop of the mutators has a not-found exit and no in-place size patch precedes a fallible step (NOTFOUNDEXIT), name->id translation checks the lookup (NILLOOKUP), in-place patching of the caller's bytes is confined to the mutators (INPUTRO), insertion errors propagate (DROPERR).",
 			NotDec:  "splice arithmetic, count/order after arbitrary histories, fork independence.",
 			Uses: uses(
+				use("MAPHDRORDER", "an empty map written for an absent field names key type before value type", thriftPkg),
 				use("INDEXLOWER", "a negative element index is rejected by the editors too", thriftGeneric),
 				use("NOTFOUNDEXIT", "absent element changes nothing", thriftGeneric),
 				use("NILLOOKUP", "name->id checked", funcHas("thrift/generic.Value).SetByPath", "thrift/generic.Value).UnsetByPath", "thrift/generic.GetDescByPath")),
@@ -171,6 +182,11 @@ func initProperties() {
 			Decides: "the by-id slot threshold is compared identically at load, lookup and store (THRESHAGREE), PathNode.marshal covers every thrift type and writes headers before elements (KINDEXH, HDRFIRST), child-slice growth is bounded by the input (ALLOCBOUND), Marshal copies out of the pooled buffer (POOLESCAPE).",
 			NotDec:  "losslessness itself (byte equality of Marshal(Load(x)) with x for every x); that edits through SetField/SetByStr land in the slot a later lookup consults.",
 			Uses: uses(
+				use("PATCHAFTERDEC", "a dropped empty child patches the header with the corrected count", thriftGeneric),
+				use("BUFOWN", "marshal only extends the writer's buffer", thriftGeneric),
+				use("BARESPAN", "an empty container child keeps its own span when the parent is not scanned", thriftGeneric),
+				use("HASHTHRESH", "the map getters probe a hash table only when the loader built one", thriftGeneric),
+				use("SIGNEDBYTE", "an i8 map key is the same integer at load, lookup and store", anyOf(thriftGeneric, thriftPkg)),
 				use("HDRKEEP", "a loaded container remembers the element/key type of its header", thriftGeneric),
 				use("BOUNDAGREE", "skipping accepts a value that ends exactly at the end of the buffer", thriftPkg),
 				use("SLOTID", "the by-id fast path verifies the id held by the slot", thriftGeneric),
@@ -196,6 +212,11 @@ func initProperties() {
 			Decides: "for every function of both protocols, both generic packages and the four converters, in both build configurations: every cursor loop consumes input or leaves (LOOPPROGRESS), no input-derived count sizes an allocation unbounded (ALLOCBOUND), size-guarded functions never get a non-positive size (PANICARG), descriptor lookups on input-derived ids are nil-checked (NILLOOKUP), input-driven recursion carries a depth budget (RECDEPTH), no decoder error is dropped or swallowed (DROPERR, ERRSWALLOW).",
 			NotDec:  "out-of-bounds reads through unsafe in general (only the scalar casts of thrift/generic are tied to the node length, RAWWIDTH; header peeks of iterators and of the protobuf side need value ranges), panics inside sonic or the native blob, wall-clock bounds.",
 			Uses: uses(
+				use("COUNTSIGN", "a count decoded in place is sign-tested before it scales a cursor advance", nil),
+				use("GROWCAP", "a nearly full buffer is re-allocated with a capacity above its length", nil),
+				use("CURSORBACK", "a reader steps its cursor back only after comparing it with the step", nil),
+				use("RAWHDR", "a node constructor peeks at the type bytes only of a source that has them", nil),
+				use("MSGDESCNIL", "a lookup below a scalar field finds a nil message descriptor tolerated", protoGeneric),
 				use("REGIONEXACT", "a packed list / embedded message is walked exactly to the end of its payload", nil),
 				use("KNOWNNILARG", "no nil probe result is passed on as a value", nil),
 				use("DEPTHBUDGET", "the recursion budget is decremented once per level", nil),
@@ -243,6 +264,13 @@ func initProperties() {
 			Decides: "unknown field numbers in the message cannot crash reads (NILLOOKUP over proto/generic), kind/wire-type/packedness tables match the protobuf spec (KINDTABLE — they drive every skip), errors propagate (DROPERR, ERRSWALLOW), search loops consume (LOOPPROGRESS), unknown fields are skipped (UNKNOWNSKIP).",
 			NotDec:  "positions/values, packed/unpacked boundaries, empty sub-messages.",
 			Uses: uses(
+				use("OPTSFORWARD", "the caller's options reach every part of the result", protoGeneric),
+				use("TWINCMP", "the peeking tag reader rejects what the moving one rejects", inPkgs("proto/binary")),
+				use("PEEKBREAK", "the tag that ends a field's run is peeked at, not consumed", nil),
+				use("LAZYSIZE", "an index is compared with a list size only once the size has been counted", protoGeneric),
+				use("CLAUSEREJECT", "a cast helper accepts every kind whose clause calls it", protoGeneric),
+				use("CURSORBACK", "element 0 is handed back at its tag only if a tag of that size precedes the cursor", protoGeneric),
+				use("MSGDESCNIL", "a path below a scalar field is not-found, not a nil dereference", protoGeneric),
 				use("COUNTERRESET", "a scan counts a container's elements from zero", protoGeneric),
 				use("NEXTSTOREBACK", "a refill stores the children back on every success path", protoGeneric),
 				use("TAGPOS", "locators hand out tag positions", nil),
@@ -287,6 +315,8 @@ func initProperties() {
 			Decides: "balanced JSON on every success path of p2j (JSONPAIR), every legal map-key kind is quoted (MAPKEYQUOTE), unsigned kinds are not routed through a signed formatter (SIGNCONV), the kind switch covers the 15 scalar kinds + MESSAGE (KINDEXH), list/map loops consume and stop on errors (LOOPPROGRESS, DROPERR), unknown = error iff disallowed (NEGPOLARITY).",
 			NotDec:  "float exactness, comma placement.",
 			Uses: uses(
+				use("DONILNIL", "no converter answers (nil, nil): an empty message is {}", inPkgs("conv/p2j")),
+				use("NOGOQUOTE", "keys and strings are quoted as JSON, not as Go literals", nil),
 				use("REGIONEXACT", "a packed list / embedded message is walked exactly to the end of its payload", nil),
 				use("KEYSRC", "object members are keyed by the JSON name at every nesting level", inPkgs("conv/p2j")),
 				use("OPTPRESENCE", "[packed = false] is read only where the option is present", nil),
@@ -315,6 +345,13 @@ func initProperties() {
 			Decides: "the visitor's kind switches accept every kind the spec allows for a JSON number/string/bool and map key (KINDEXH), per-kind writer primitives match the spec (RWPAIR), tags use real wire types and map entries use field numbers 1/2 (TAGTYPE, MAPTAG), parse errors are not blanked (DROPERR), unknown = error iff disallowed (NEGPOLARITY).",
 			NotDec:  "speculative-length shifting at 127/128/16383 (value-level; pairing across sonic callbacks is dynamic), range checks.",
 			Uses: uses(
+				use("VALUEEND", "every value handler closes the value it handled", nil),
+				use("LENBEFOREEND", "a length is written back before its frame is released", nil),
+				use("PARSEBASE", "map keys given as text are decimal", inPkgs("conv/j2p")),
+				use("SIGNPARSE", "map keys are parsed with the signedness of their kind", inPkgs("conv/j2p")),
+				use("REGISTERALL", "every field is findable by its JSON name", nil),
+				use("KINDCHECKED", "a JSON scalar is written only under a test of the target field kind", nil),
+				use("PACKEDTAG", "only the elements of a packed list go without a tag", nil),
 				use("RESULTUSED", "the buffer returned by FinishSpeculativeLength is kept", inPkgs("conv/j2p", "proto/binary")),
 				use("KINDNAME", "each kind's clause calls the primitive named after that kind (signedness / width)", nil),
 				use("KINDEXH", "kinds accepted", inPkgs("conv/j2p")),
@@ -343,6 +380,9 @@ func initProperties() {
 			Decides: "inserted tags carry a real wire type and map entries key=1/value=2 (TAGTYPE, MAPTAG), speculative lengths are finished on every path of PathNode.marshal (SPECLENPAIR), name->number translation is nil-checked (NILLOOKUP), insertion/tag errors propagate (DROPERR), the delete locator has a not-found exit (NOTFOUNDEXIT).",
 			NotDec:  "updateByteLen ancestor-length arithmetic.",
 			Uses: uses(
+				use("PEEKBREAK", "the not-found position of a map / list lies before the next field's tag", protoGeneric),
+				use("BUFOWN", "marshal only extends the writer's buffer", protoGeneric),
+				use("ONESHOTFLAG", "the packed flag is re-read at every level of the length update", protoGeneric),
 				use("WIREDISPATCH", "no value is encoded by its wire type alone (zig-zag / signedness come from the kind)", nil),
 				use("COUNTERRESET", "a scan counts a container's elements from zero", protoGeneric),
 				use("COPYZERO", "SetMany's scratch copy really copies", protoGeneric),
@@ -378,6 +418,7 @@ func initProperties() {
 			Decides: "every success return of thrift marshalTo has consumed from the source and produced output (MUSTCONSUME: identical descriptors must copy, not drop), headers precede elements (HDRFIRST), proto marshalTo finishes its lengths and propagates nested errors (SPECLENPAIR, DROPERR), unknown fields are skipped/rejected per option (UNKNOWNSKIP, NEGPOLARITY), lookups checked (NILLOOKUP), recursion bounded (RECDEPTH), MarshalTo copies out of the pooled buffer (POOLESCAPE).",
 			NotDec:  "that the output is exactly the projection.",
 			Uses: uses(
+				use("BITMAPLEN", "a required bit is never written beyond the bitmap's length", nil),
 				use("DEFAULTARM", "a missing required field stays an error whether or not it has a default", thriftPkg),
 				use("UNKNOWNBREAK", "an unknown field does not end the field loop", anyOf(thriftGeneric, protoGeneric)),
 				use("MUSTCONSUME", "copy, never drop", nil),
@@ -399,6 +440,8 @@ func initProperties() {
 			Decides: "no function reachable (VTA call graph) from a read-side entry point writes descriptor state (DESCIMMUT), a package-level variable (GLOBALWRITE), the caller's input bytes (INPUTRO) or a converter receiver — hence concurrent read-side calls share only immutable data and sync.Pool objects; pooled buffers are never returned, stored in caller-visible memory or used after Put (POOLESCAPE).",
 			NotDec:  "result equality under interleavings, dirty pooled bitmaps (value-level), user-supplied http getters.",
 			Uses: uses(
+				use("POOLNEWSHARED", "pooled objects share no storage", nil),
+				use("BUFOWN", "a pooled writer's buffer never aliases the caller's input", nil),
 				use("SPARSECLEAR", "a pooled PathNode does not show the previous document's children", nil),
 				use("CHILDRESET", "a pooled PathNode does not show the previous document's children", nil),
 				use("PARAMFORWARD", "an option parameter reaches every call of the callee it is forwarded to (copyString covers keys and values)", nil),
@@ -414,6 +457,9 @@ func initProperties() {
 			Decides: "every kind one direction emits as a JSON number/string/bool is accepted from that JSON kind by the inverse direction (KINDINV), both directions use the same key accessor (KEYSRC).",
 			NotDec:  "everything numeric (precision, sign of zero), string quoting, base64.",
 			Uses: uses(
+				use("SIGNPARSE", "a key that p2j printed is accepted by j2p", nil),
+				use("GROWCAP", "buffer growth keeps what was written", nil),
+				use("PACKEDTAG", "a [packed = false] list written by j2p is the one p2j read", nil),
 				use("RESULTUSED", "a re-allocated buffer is not dropped", nil),
 				use("KINDINV", "emitted kinds accepted", nil),
 				use("KEYSRC", "same keys both ways", nil),
@@ -425,6 +471,9 @@ func initProperties() {
 			Decides: "every name map that is filled is built (BUILDPAIR: without Build every key lookup returns nil), trie/hash Set and Get derive slots through the same helper (SEQAGREE), descriptors are not written after parsing (DESCIMMUT).",
 			NotDec:  "fidelity to the IDL, default values, requiredness under options, the native trie_get/hm_get twins, adversarial keys.",
 			Uses: uses(
+				use("BITMAPLEN", "the requires bitmap of a struct with sparse ids keeps every bit", nil),
+				use("RECINTARG", "key and value of a map type are parsed at the same depth", thriftPkg),
+				use("PUBLISHCOMPLETE", "a descriptor is complete when it enters the compile cache", thriftPkg),
 				use("KNOWNNILARG", "the name index is not filled with nil probe results", inPkgs("internal/util", "internal/caching", "thrift")),
 				use("DEFAULTLIT", "every literal kind the grammar allows for a field type yields a default", nil),
 				use("PROBEWRAP", "hash probing wraps the slot pointer with the slot index", inPkgs("internal/caching")),
@@ -450,6 +499,8 @@ func initProperties() {
 			Decides: "the compiling cache is keyed injectively (CACHEKEY: message types sharing a simple name get distinct descriptors), kind/wire/packedness tables match the spec (KINDTABLE), name maps are built (BUILDPAIR).",
 			NotDec:  "field-by-field fidelity, streaming flags.",
 			Uses: uses(
+				use("REGISTERALL", "name, number and JSON-name tables are filled under the same conditions", nil),
+				use("PUBLISHCOMPLETE", "a descriptor is complete when it enters the compile cache", inPkgs("proto")),
 				use("KNOWNNILARG", "the name index is not filled with nil probe results", inPkgs("internal/util", "internal/caching", "proto")),
 				use("OPTPRESENCE", "[packed = false] is read only where the option is present", nil),
 				use("IDUPPERCONST", "the shared id table has no protocol-specific upper bound", nil),
@@ -468,6 +519,7 @@ func initProperties() {
 			Decides: "each write/disallow option reaches its own flag bit with the documented polarity (FLAGSYNC), options reach the matching parameter of HandleRequires/CheckRequires/EncodeText/ReadAnyWithDesc (ARGSWAP), an unknown member is an error exactly when disallowed and is otherwise skipped (NEGPOLARITY, UNKNOWNSKIP), unset fields are written under the same key as present ones (KEYSRC), the descriptor's requires bitmap is only copied, never written (DESCIMMUT).",
 			NotDec:  "the truth table itself under dirty bitmaps and ids > 64/256.",
 			Uses: uses(
+				use("BITMAPLEN", "a required field with a sparse high id is still checked / written", nil),
 				use("ARGAGREE", "every fallback look-up of a field uses the same key accessor", nil),
 				use("DEFAULTARM", "an IDL default matters for optional fields only", thriftPkg),
 				use("DEFAULTLIT", "every literal kind the grammar allows for a field type yields a default", nil),
@@ -487,6 +539,7 @@ func initProperties() {
 			Decides: "each annotation key maps to the type whose Request/Response calls the getter/setter of its declared source (ANNOTABLE), the first listed source with a value wins (FIRSTWINS), HTTPConv really enables mapping before flags are computed (FLAGSYNC), fallback options reach the right parameters (ARGSWAP), mapping errors are not dropped (DROPERR).",
 			NotDec:  "precedence/fallback decision table, field-cache replay in the native converter.",
 			Uses: uses(
+				use("SIGNEDBYTE", "the text form of an i8 (header, query, js_conv) is signed", nil),
 				use("ARGAGREE", "every HTTP look-up of a field uses the same key accessor", nil),
 				use("CACHERET", "the body-member cache returns what it stored", nil),
 				use("BODYNIL", "a request without a body is an empty body, not a nil dereference", nil),
@@ -509,6 +562,8 @@ func initProperties() {
 			Decides: "every native stub is bound in all three SIMD flavours with identical key sets and each flavour loads its own text (STUBTABLE), native and portable files are selected by exactly complementary build constraints (TAGPARTITION), the portable converter reads the options the native flags carry (OPTAGREE) and rejects kind mismatches on every path (CASEEXIT), native skip failure is an error like Go skip (NATIVERET).",
 			NotDec:  "agreement of outputs, text-encoder exactness (opaque blob).",
 			Uses: uses(
+				use("NATIVEROW", "each native stub row is built from its own routine's constants", nil),
+				use("PARSEBASE", "the portable converter reads text integers in base 10 like the native one", nil),
 				use("TRUNCALLPATHS", "the native field cache is emptied on every success exit of the fallback handler", nil),
 				use("STUBTABLE", "flavour tables", nil),
 				use("CURSORREL", "native skip result is added to the cursor", thriftPkg),
@@ -527,6 +582,9 @@ func initProperties() {
 			Decides: "skip width = read width = write width per fixed-size type (WIDTHTABLE), container/field headers precede elements in the generic writers (HDRFIRST), structs are closed with STOP (STRUCTPAIR), casted values are the ones written (CASTUSED), precomputed header/footer issue the same writer sequence as WrapBinaryBody (SEQAGREE), type switches exhaustive (KINDEXH), counts bounded (ALLOCBOUND), no size panics (PANICARG).",
 			NotDec:  "value round-trips.",
 			Uses: uses(
+				use("INTSWITCHCOVER", "the Go-value writer accepts every integer width the reader produces", nil),
+				use("MAPHDRORDER", "a map header is key type, value type, count", thriftPkg),
+				use("SIGNEDBYTE", "ReadInt(I08) is the inverse of WriteInt(I08)", thriftPkg),
 				use("BOUNDAGREE", "skip accepts a value that ends exactly at the end of the buffer", thriftPkg),
 				use("DEPTHBUDGET", "the skip depth budget counts nesting levels, not elements", thriftPkg),
 				use("HEADERKIND", "byte slices are built through the slice header (len and cap)", thriftPkg),
@@ -567,6 +625,8 @@ func initProperties() {
 			Decides: "per kind, the descriptor-driven reader and writer use inverse wire primitives matching the spec incl. zig-zag (RWPAIR), unrolled varint stages follow the template (VARINTTEMPLATE), kind/wire tables = spec (KINDTABLE), option/flag arguments are passed in parameter order (ARGSWAP), map entries key=1/value=2 (MAPTAG), speculative lengths finished and writer errors propagated in WriteList/WriteMap/WriteMessageFields (SPECLENPAIR, DROPERR), no size panics (PANICARG).",
 			NotDec:  "byte-identity with the reference encoder.",
 			Uses: uses(
+				use("VARINTSIGNEXT", "a negative int32 is a sign-extended 10-byte varint", nil),
+				use("TWINCMP", "the peeking tag reader rejects what the moving one rejects", inPkgs("proto/binary")),
 				use("LENZERO", "an empty embedded message is a present value, not nil and not an error", protoBinary),
 				use("WIREDISPATCH", "no value is encoded by its wire type alone (zig-zag / signedness come from the kind)", nil),
 				use("REGIONEXACT", "a packed list / embedded message is walked exactly to the end of its payload", nil),
